@@ -14,7 +14,7 @@ from harness.props import c04
 from harness.lib import RunResult
 
 PID = "C11"
-COQ_TARGETS = ["props/C11.vo", "model/EngineInv.vo"]   # EngineInv: needed by the extracted oracle
+COQ_TARGETS = ["props/C11.vo", "props/C11E.vo", "model/EngineInv.vo"]   # EngineInv: needed by the extracted oracle
 THEOREMS = [
     "Stab.props.C11.C11_source_shape",
     "Stab.props.C11.C11_acquire_claim_as_coded",
@@ -27,6 +27,9 @@ THEOREMS = [
     "Stab.props.C11.C11_choice_owner",
     "Stab.props.C11.C11_choice_one_winner",
     "Stab.props.C11.C11_choice_losers_cancel",
+    "Stab.props.C11E.C11_engine_mutex_owner_partial",
+    "Stab.props.C11E.C11_engine_mutex_exclusive_partial",
+    "Stab.props.C11E.C11_engine_mutex_crash_cut",
 ]
 TRUSTED_BASE = c04.TRUSTED_BASE
 ASSUMPTIONS = [
